@@ -291,6 +291,13 @@ def run_semantic(ck, text_cases):
     ck.coverage["distinct_nontrivial"] += len(nontrivial)
     ck.coverage["rule"] += ("semantic layer: (query, ctx, database) triples; the implementation's SQL is evaluated twice (two tie-breakings) and judged by sem_b; "
                             "non-trivial = the reference answer keeps some samples and drops others, or a LIMIT cuts it; distinct by content. ")
+    classes = {}
+    for cid in res:
+        for k in set(byid[cid].get("class") or ["plain-selector"]):
+            classes[k] = classes.get(k, 0) + 1
+    ck.extra["input_distribution"] = {"semantic_search_query_classes (a query counts once per class it has)": classes,
+                                      "fragment (no parser/drop)": sum(1 for v in res.values() if v["fragment"]),
+                                      "fragment2 (json/drop, any order)": sum(1 for v in res.values() if v["fragment2"])}
     ck.extra["sem_cases"] = {"evaluated_cases": len(res), "skipped": skipped,
                              "origins": {o: sum(1 for i in res if origin.get(i) == o) for o in ("gen", "text", "corpus")},
                              "guarded_evaluations": theorem_evals,
@@ -302,6 +309,38 @@ def run_semantic(ck, text_cases):
                 samples.append({"query": byid[cid]["query"], "ctx": byid[cid]["ctx"], "db": byid[cid]["dbs"][k], "rows_wanted": d["nwant"],
                                 "impl_verdict": d["impl"]})
     ck.add_samples(samples)
+
+
+def run_regroups(ck):
+    """the `| regexp` stage: the label names the planner pairs with the capture groups of the expression it sends,
+    against Go's regexp (group i = i-th opening parenthesis), on generated expressions with nested / mixed groups"""
+    out_f = os.path.join(ck.work, "regroups.jsonl")
+    n = ck.n(400, 20000)
+    rc, out = ck.go_run("logqlsem", ["--mode", "regroups", "--seed", ck.seed, "--n", n, "--out", out_f])
+    if rc != 0:
+        ck.obligation("harness logqlsem --mode regroups ran", False, out[-1500:])
+        return
+    rows = [json.loads(l) for l in open(out_f) if l.strip()]
+    hist = {}
+    for r in rows:
+        hist[r["class"]] = hist.get(r["class"], 0) + 1
+    bad = [r for r in rows if not r["ok"]]
+    ck.obligation("regexp stage: the planner's expression parser accepts every generated RE2 expression, the expression it sends has "
+                  "the same capture groups, and its label names are paired with them in opening-parenthesis order "
+                  "(%d expressions: %s)" % (len(rows), ", ".join("%s %d" % kv for kv in sorted(hist.items()))),
+                  not bad and hist.get("nested-in-named", 0) >= 20,
+                  "%d failing; first: %s -> %s" % (len(bad), bad[0]["re"] if bad else "", bad[0].get("why") if bad else "too few nested expressions"))
+    ck.coverage["evaluations"] += len(rows)
+    ck.extra.setdefault("input_distribution", {})["regexp_stage_expressions"] = hist
+    if bad:
+        w = min(bad, key=lambda r: (r.get("want") == r.get("got"), len(r["re"]), len(r["line"])))
+        ck.violation({"property": "C07", "kind": "regexp stage pairs capture groups with the wrong label names",
+                      "query": w["query"], "line": w["line"], "expression_sent": w.get("stripped"),
+                      "names_in_sql": w.get("impl_names"), "names_by_opening_parenthesis": w.get("ref_names"),
+                      "expected": w.get("want"), "got": w.get("got"), "why": w.get("why"),
+                      "expected_is": "the labels a `| regexp` stage extracts from the line: capture group i (i-th opening parenthesis, as RE2 / "
+                                     "extractAllGroupsHorizontal number them) under the name written in that group",
+                      "replay": "harness logqlsem --mode regroups; or send the query to the reader over a stream holding the line"})
 
 
 def run_replay(ck):
@@ -364,3 +403,4 @@ def run(ck):
         time.sleep(5)
         cases = sqltext.run_logql(ck, n_quick=1000, n_thorough=40000)
     run_semantic(ck, cases)
+    run_regroups(ck)
